@@ -143,7 +143,41 @@ def _summary(r):
             'df': df, 'sp_bad': sp_bad}
 
 
+def _objhash(obj):
+    """hash of what the object-level analysis consumes of one object: code bytes with relocations, symbols and sections (not the DWARF
+    line table, whose file names depend on where the tree lies)"""
+    import hashlib
+    h = hashlib.sha256()
+    for cmd in (['objdump', '-D', '-r', '-M', 'intel', '-j', '.text', '--show-raw-insn', '-w', obj], ['readelf', '-sW', obj],
+                ['readelf', '-SW', obj]):
+        out = subprocess.run(cmd, capture_output=True, text=True).stdout
+        h.update('\n'.join(l for l in out.splitlines() if obj not in l).encode())
+    return h.hexdigest()[:32]
+
+
+def _extractor_hash():
+    import hashlib
+    h = hashlib.sha256()
+    d = os.path.dirname(os.path.abspath(__file__))
+    for f in sorted(os.listdir(d)):
+        if f.startswith('asm') and f.endswith('.py'):
+            h.update(open(os.path.join(d, f), 'rb').read())
+    return h.hexdigest()[:12]
+
+
+def _objcache_dir():
+    d = os.path.join(build.CACHE_ROOT, 'asmobj-' + _extractor_hash())
+    if not os.path.isdir(d):
+        os.makedirs(d, exist_ok=True)
+        import shutil
+        for x in os.listdir(build.CACHE_ROOT):      # results of older extractor versions are useless
+            if x.startswith('asmobj-') and x != os.path.basename(d):
+                shutil.rmtree(os.path.join(build.CACHE_ROOT, x), ignore_errors=True)
+    return d
+
+
 def _stage():
+    import pickle
     t0 = time.time()
     objs = build.build_asm_objects()
     rels = {src: os.path.relpath(src, build.REPO) for src in objs}
@@ -154,6 +188,57 @@ def _stage():
     sections = {}
     funcs_of = {}
     only = {src: None for src in objs}
+    # ---- per-object reuse: an object whose code, symbols and relocations are byte-identical to one analysed before, and all of
+    # whose external assembly callees live in such objects too, has identical results (a routine's facts depend on its own code and
+    # on its callees' summaries only)
+    hashes = {}
+    reused = 0
+    if build.use_cache():
+        with ProcessPoolExecutor(build.NPROC) as ex:
+            hashes = dict(zip(objs, ex.map(_objhash, [objs[s_] for s_ in objs])))
+        cdir = _objcache_dir()
+        cached = {}
+        for src, h in hashes.items():
+            pth = os.path.join(cdir, h + '.pkl')
+            if os.path.exists(pth):
+                try:
+                    with open(pth, 'rb') as f:
+                        cached[src] = pickle.load(f)
+                except Exception:
+                    pass
+        defined_in = {}
+        for src, c in cached.items():
+            for n in c['res']:
+                defined_in.setdefault(n, src)
+        ok = set(cached)
+        changed_ok = True
+        while changed_ok:
+            changed_ok = False
+            for src in list(ok):
+                for n in cached[src]['ext']:
+                    # a callee defined in an object that has to be analysed afresh (or defined nowhere we know): analyse the caller afresh too
+                    d_ = defined_in.get(n)
+                    if d_ is None or d_ not in ok:
+                        if n in cached[src].get('undef_ok', ()):
+                            continue
+                        ok.discard(src)
+                        changed_ok = True
+                        break
+        # names defined by objects that will be analysed afresh are unknown until then: a cached caller of an undefined-everywhere
+        # name stays valid only if that name is still undefined everywhere, which we cannot know yet -> keep it simple: such callers are redone
+        for src in ok:
+            c = cached[src]
+            results[rels[src]] = c['res']
+            symtab[rels[src]] = c['syms']
+            sections[rels[src]] = c['secs']
+            funcs_of[rels[src]] = c['fns']
+            only[src] = set()
+            reused += 1
+        for rel_, fr in results.items():
+            for name, r in fr.items():
+                summaries[name] = None   # filled below
+        if results:
+            summaries = _summaries_of(results)
     it = 0
     with ProcessPoolExecutor(build.NPROC) as ex:
         while True:
@@ -167,29 +252,7 @@ def _stage():
                 symtab[rel] = syms
                 sections[rel] = secs
                 funcs_of[rel] = fns
-            new = {}
-            # transitive GPR write sets over the asm call graph (unknown callee = everything caller-saved)
-            w0 = {}
-            cl = {}
-            for rel, fr in results.items():
-                for name, r in fr.items():
-                    w0[name] = set(r.get('gprw0', asmint.CALLER))
-                    cl[name] = r.get('callees0', [])
-            wt = {n: set(v) for n, v in w0.items()}
-            changed_w = True
-            while changed_w:
-                changed_w = False
-                for n in wt:
-                    for c in cl[n]:
-                        add = wt[c] if c in wt else set(asmint.CALLER)
-                        if not add <= wt[n]:
-                            wt[n] |= add
-                            changed_w = True
-            for rel, fr in results.items():
-                for name, r in fr.items():
-                    s = _summary(r)
-                    s['gprw'] = sorted(wt.get(name, asmint.CALLER))
-                    new[name] = s
+            new = _summaries_of(results)
             changed = {n for n in set(new) | set(summaries) if new.get(n) != summaries.get(n)}
             summaries = new
             if not changed or it >= 8:
@@ -205,8 +268,58 @@ def _stage():
                 only[src] = need
             if not any(only.values()):
                 break
+    # remember the objects analysed afresh
+    if hashes:
+        cdir = _objcache_dir()
+        alln = set()
+        for fr in results.values():
+            alln |= set(fr)
+        for src, h in hashes.items():
+            if only.get(src) == set() and reused and os.path.exists(os.path.join(cdir, h + '.pkl')):
+                continue
+            rel = rels[src]
+            res = results.get(rel, {})
+            ext = set()
+            for r in res.values():
+                ext |= {c for c in r.get('calls', {}) if c not in res}
+            ent = {'res': res, 'syms': symtab.get(rel), 'secs': sections.get(rel), 'fns': funcs_of.get(rel), 'ext': sorted(ext),
+                   'undef_ok': sorted(c for c in ext if c not in alln)}
+            tmp = os.path.join(cdir, '%s.%d.tmp' % (h, os.getpid()))
+            try:
+                with open(tmp, 'wb') as f:
+                    pickle.dump(ent, f, protocol=4)
+                os.replace(tmp, os.path.join(cdir, h + '.pkl'))
+            except OSError:
+                pass
     return {'results': results, 'symbols': symtab, 'sections': sections, 'summaries': summaries, 'iterations': it,
-            'time_nasm': round(t1 - t0, 1), 'time_analysis': round(time.time() - t1, 1)}
+            'time_nasm': round(t1 - t0, 1), 'time_analysis': round(time.time() - t1, 1), 'objects_reused': reused}
+
+
+def _summaries_of(results):
+    new = {}
+    # transitive GPR write sets over the asm call graph (unknown callee = everything caller-saved)
+    w0 = {}
+    cl = {}
+    for rel, fr in results.items():
+        for name, r in fr.items():
+            w0[name] = set(r.get('gprw0', asmint.CALLER))
+            cl[name] = r.get('callees0', [])
+    wt = {n: set(v) for n, v in w0.items()}
+    changed_w = True
+    while changed_w:
+        changed_w = False
+        for n in wt:
+            for c in cl[n]:
+                add = wt[c] if c in wt else set(asmint.CALLER)
+                if not add <= wt[n]:
+                    wt[n] |= add
+                    changed_w = True
+    for rel, fr in results.items():
+        for name, r in fr.items():
+            s = _summary(r)
+            s['gprw'] = sorted(wt.get(name, asmint.CALLER))
+            new[name] = s
+    return new
 
 
 def stage():
